@@ -50,7 +50,7 @@ pub fn eval_un<F: FS>(fld: &Fld, form: &UnForm<F>, a: &BigUint, fa: F) -> Outcom
 }
 
 /// the four iterator folds
-pub const FOLDS: [&str; 4] = ["Sum<Self>", "Sum<&Self>", "Product<Self>", "Product<&Self>"];
+pub const FOLDS: [&str; 8] = ["Sum<Self>", "Sum<&Self>", "Product<Self>", "Product<&Self>", "Sum<Self> via filter", "Sum<&Self> via filter", "Product<Self> via skip_while", "Product<&Self> via rev+chain"];
 pub fn eval_fold<F: FS>(fld: &Fld, which: usize, list: &[BigUint]) -> Outcome {
     let n = F::NBYTES;
     let fl: Vec<F> = list.iter().map(F::of).collect();
@@ -58,10 +58,17 @@ pub fn eval_fold<F: FS>(fld: &Fld, which: usize, list: &[BigUint]) -> Outcome {
         0 => fl.clone().into_iter().sum::<F>(),
         1 => fl.iter().sum::<F>(),
         2 => fl.clone().into_iter().product::<F>(),
-        _ => fl.iter().product::<F>(),
+        3 => fl.iter().product::<F>(),
+        4 => fl.clone().into_iter().filter(|_| true).sum::<F>(),
+        5 => fl.iter().filter(|_| true).sum::<F>(),
+        6 => fl.clone().into_iter().skip_while(|_| false).product::<F>(),
+        _ => {
+            let e: [F; 0] = [];
+            fl.iter().rev().chain(e.iter()).product::<F>()
+        }
     }
     .big();
-    let want = if which < 2 { list.iter().fold(BigUint::zero(), |acc, x| fld.add(&acc, x)) } else { list.iter().fold(BigUint::one(), |acc, x| fld.mul(&acc, x)) };
+    let want = if which < 2 || which == 4 || which == 5 { list.iter().fold(BigUint::zero(), |acc, x| fld.add(&acc, x)) } else { list.iter().fold(BigUint::one(), |acc, x| fld.mul(&acc, x)) };
     let class = format!("{}/{}/len{}", F::NAME, FOLDS[which], list.len());
     if got != want {
         let case = json!({"field": F::NAME, "kind": "fold", "form": FOLDS[which], "list": list.iter().map(|x| hexle(x, n)).collect::<Vec<_>>()});
@@ -417,6 +424,35 @@ fn run_field<F: FS>(ctx: &Arc<Ctx>) {
             (format!("{}|{}", F::NAME, bforms[fi].name), json!({"field": F::NAME, "kind": "bin", "form": bforms[fi].name, "a": hexle(a, n), "b": hexle(b, n)}))
         },
     );
+    // 2b. Montgomery-domain limb patterns: x = m * R^-1 mod p, so that the INTERNAL representation
+    // of x is the limb pattern m (R = 2^(8*NBYTES) for both word sizes). Additions and
+    // subtractions act limb-wise on that representation, so these pairs drive every carry /
+    // borrow chain, including the conditional add-back / subtract of the modulus.
+    {
+        // quick: level-0 patterns squared; thorough: level 1 (2^(n/4) patterns) x level 0, and for
+        // the 32-byte fields level 2 (3^8) x level 0
+        let b_vals: Vec<BigUint> = mont_patterns(&p, n, 0);
+        let a_vals: Vec<BigUint> = if ctx.quick() { b_vals.clone() } else { mont_patterns(&p, n, if n == 32 { 2 } else { 1 }) };
+        let a_f: Vec<F> = a_vals.iter().map(F::of).collect();
+        let b_f: Vec<F> = b_vals.iter().map(F::of).collect();
+        let b_inv: Vec<Option<BigUint>> = b_vals.par_iter().map(|x| fld.inv(x)).collect();
+        let fsel = [0usize, 7, 14, 21, 3, 10, 17];
+        let (na, nb, nfs) = (a_vals.len(), b_vals.len(), fsel.len());
+        run_cases(
+            ctx, "E3/C10-bin-montgomery-patterns", false,
+            (0..na * nb * nfs).into_par_iter().map(|i| (F::NAME, fsel[i % nfs], (i / nfs) % nb, i / nfs / nb)),
+            |&(_, fi, bi, ai)| eval_bin(&fld, &bforms[fi], &a_vals[ai], a_f[ai], &b_vals[bi], b_f[bi], Some(&b_inv[bi])),
+            |&(_, fi, bi, ai)| (format!("{}|{}", F::NAME, bforms[fi].name), json!({"field": F::NAME, "kind": "bin", "form": bforms[fi].name, "a": hexle(&a_vals[ai], n), "b": hexle(&b_vals[bi], n)})),
+        );
+        let nu = uforms.len();
+        run_cases(
+            ctx, "E3/C10-un-montgomery-patterns", false,
+            (0..na * nu).into_par_iter().map(|i| (F::NAME, i % nu, i / nu)),
+            |&(_, fi, ai)| eval_un(&fld, &uforms[fi], &a_vals[ai], a_f[ai]),
+            |&(_, fi, ai)| (format!("{}|{}", F::NAME, uforms[fi].name), json!({"field": F::NAME, "kind": "un", "form": uforms[fi].name, "a": hexle(&a_vals[ai], n)})),
+        );
+        r.set(&format!("domain_montgomery_{}", F::NAME), json!({"patterns_a": na, "patterns_b": nb, "forms": nfs}));
+    }
     // 3. unary forms on S_small + S_limb
     let all: Vec<(&BigUint, F)> = small.iter().zip(small_f.iter().copied()).chain(limb.iter().zip(limb_f.iter().copied())).collect();
     let na = all.len();
@@ -440,7 +476,7 @@ fn run_field<F: FS>(ctx: &Arc<Ctx>) {
     }
     run_cases(
         ctx, "E3/C10-fold", false,
-        (0..lists.len() * 4).into_par_iter().map(|i| (F::NAME, i % 4, i / 4)),
+        (0..lists.len() * 8).into_par_iter().map(|i| (F::NAME, i % 8, i / 8)),
         |&(_, w, li)| eval_fold::<F>(&fld, w, &lists[li].iter().map(|&i| lv[i].clone()).collect::<Vec<_>>()),
         |&(_, w, li)| (format!("{}|{}", F::NAME, FOLDS[w]), json!({"field": F::NAME, "kind": "fold", "form": FOLDS[w], "list": lists[li].iter().map(|&i| hexle(&lv[i], n)).collect::<Vec<_>>()})),
     );
@@ -500,6 +536,16 @@ fn run_fq_only(ctx: &Arc<Ctx>) {
         (0..ns * ns * 2).into_par_iter().map(|i| ("Fq", i % 2, (i / 2) % ns, i / 2 / ns)),
         |&(_, c, ai, bi)| eval_select(&small[ai], &small[bi], c as u8),
         |&(_, c, ai, bi)| ("Fq|conditional_select".to_string(), json!({"field": "Fq", "kind": "select", "form": "conditional_select", "a": hexle(&small[ai], 32), "b": hexle(&small[bi], 32), "choice": c})),
+    );
+    // select / ct_eq / == on Montgomery-domain limb patterns (internal limbs that agree except
+    // in one position)
+    let mp = mont_patterns(&p, 32, if ctx.quick() { 0 } else { 1 });
+    let nm = mp.len();
+    run_cases(
+        ctx, "E3/C10-select-montgomery-patterns", false,
+        (0..nm * nm * 2).into_par_iter().map(|i| ("Fq", i % 2, (i / 2) % nm, i / 2 / nm)),
+        |&(_, c, ai, bi)| eval_select(&mp[ai], &mp[bi], c as u8),
+        |&(_, c, ai, bi)| ("Fq|conditional_select".to_string(), json!({"field": "Fq", "kind": "select", "form": "conditional_select", "a": hexle(&mp[ai], 32), "b": hexle(&mp[bi], 32), "choice": c})),
     );
     // power LAST: on a tree where it loops exp[0] times the watchdog ends the run
     let exps = exp_slices(&p);
